@@ -232,7 +232,9 @@ class LeaseCheckingCrawler(ShareCrawler):
             #  expired-or-not according to our configured age limit
             expired = False
             if self.mode == "age":
-                age_limit = original_expiration_time
+                # the lease's own duration: an age must be compared with a
+                # duration, not with the absolute expiration timestamp
+                age_limit = original_expiration_time - grant_renew_time
                 if self.override_lease_duration is not None:
                     age_limit = self.override_lease_duration
                 if age > age_limit:
